@@ -256,8 +256,7 @@ pub fn run(rep: &mut Report) {
                 names with commas) rendered and parsed; the same with one FNDA made undeclared (must be Err(Parse)); \
                 five fixed lcov 2.x tracefiles (FN:<start>,<end>,<name>; known finding C04-lcov2-fn-end-line); \
                 generated ASTs in which about half of the BRDA records are lcov 2.x exception branches \
-                (BRDA:<line>,e<block>,<branch>,<taken>; finding C04-lcov2-exception-branch, matched against the \
-                predicted misreading); \
+                (BRDA:<line>,e<block>,<branch>,<taken>: read like ordinary ones since /repo 66f7aba); \
                 plus a malformed stream (mutated renders, random lcov-ish bytes) for the tie; non-trivial = the file \
                 has ≥1 DA and (≥1 BRDA or ≥1 FN) or is malformed; distinct = distinct input bytes"
         .to_string();
@@ -324,7 +323,7 @@ pub fn run(rep: &mut Report) {
     }
     // ---- lcov 2.x function records (known finding, witnessed on every run) -----------------------
     lcov2_stream(rep, &mut reqs, &mut impl_out, &mut inputs);
-    // ---- lcov 2.x exception branches (finding C04-lcov2-exception-branch) -----------------------
+    // ---- lcov 2.x exception branches (former finding C04-lcov2-exception-branch) ---------------
     exc::run(rep, &mut rng, &run_impl, &mut reqs, &mut impl_out, &mut inputs);
     // ---- malformed stream ---------------------------------------------------------------------
     let m = rep.budget(6_000, 30);
@@ -670,13 +669,7 @@ pub fn replay(rep: &mut Report, case: &serde_json::Value) {
             let got = run_impl(&bytes, branch);
             rep.case(&hex(&bytes), true);
             if got != case["spec"].as_str().unwrap() {
-                // the recorded misreading of an lcov 2.x exception branch keeps its finding id
-                let finding = if branch && exc::has_exception_branch(&bytes) && case["reader_view"].as_str() == Some(got.as_str()) {
-                    Some(exc::FINDING)
-                } else {
-                    None
-                };
-                rep.fail("oracle", finding, "parse_lcov(tracefile) != recorded spec outcome".into(), case.clone());
+                rep.fail("oracle", None, "parse_lcov(tracefile) != recorded spec outcome".into(), case.clone());
             }
         }
         "lcov.parse" => {
